@@ -7,7 +7,8 @@ inductive Fam where
   | h264      -- Lean packetiser + decoder
   | frag      -- Lean fragmenter + decoder (m4v, latm)
   | video     -- contract only, packetiser timestamp 0 (h265, av1, vp8, vp9, klv)
-  | audio     -- contract only, packets carry sample/frame offsets inside the unit (opus, g711, lpcm)
+  | opus      -- Lean model of rtpEncoderOpus.encode: one RTP packet per Opus packet, timestamps = summed durations
+  | audio     -- contract only, packets carry sample offsets inside the unit (g711, lpcm)
 deriving DecidableEq
 
 def famOf : String → Option Fam
@@ -19,7 +20,7 @@ def famOf : String → Option Fam
   | "vp8" => some .video
   | "vp9" => some .video
   | "klv" => some .video
-  | "opus" => some .audio
+  | "opus" => some .opus
   | "g711" => some .audio
   | "lpcm" => some .audio
   | _ => none
@@ -95,6 +96,7 @@ def packModel (d : D) (pl : Payload) : Option (List Raw) :=
   match d.fam, pl with
   | .h264, au => h264Pack d.max au
   | .frag, [f] => some (fragPack d.max f)
+  | .opus, l => some (opusPack l)
   | _, _ => none
 
 /-- property spec for packets the server generated for one unit, evaluated on the implementation's answer -/
@@ -108,7 +110,9 @@ def checkGenerated (d : D) (e : EncSt) (off : Nat) (pts : Int) (im : Impl) : Opt
     else if im.pkts.any (fun p => p.ssrc != e.ssrc) then some "SSRC of generated packets changed"
     else if !(im.pkts.zipIdx.all fun (p, i) => p.seq == (e.seq + i) % two16) then
       some "sequence numbers of generated packets are not consecutive (within the unit or w.r.t. the previous unit)"
-    else if d.fam != .audio && im.pkts.any (fun p => p.ts != base) then
+    else if d.fam == .opus && !((im.pkts.zip (opusPack pl)).all fun (p, r) => p.ts == (base + r.dts) % two32) then
+      some "a packet of a multi-packet Opus unit does not carry unit timestamp + fixed offset + the durations of the packets before it"
+    else if d.fam != .audio && d.fam != .opus && im.pkts.any (fun p => p.ts != base) then
       some "a generated packet does not carry unit timestamp + fixed offset"
     else if d.fam == .audio && (im.pkts.head?.map (·.ts)) != some base then
       some "first generated packet does not carry unit timestamp + fixed offset"
@@ -122,6 +126,9 @@ def checkGenerated (d : D) (e : EncSt) (off : Nat) (pts : Int) (im : Impl) : Opt
         match (fragDecodeAll {} im.pkts).2 with
         | .out f => if [f] == pl then none else some "depacketizing (Lean rtpfragmented decoder) does not yield the delivered frame"
         | _ => some "depacketizing (Lean rtpfragmented decoder) fails on the generated packets"
+      | .opus =>
+        if opusUnpack (im.pkts.map fun p => { marker := p.marker, payload := p.payload }) == some pl then none
+        else some "the RTP packets of an Opus unit are not its Opus packets, one per packet and in order"
       | _ =>
         -- contract-only families: the round trip through the repository's rtpDecoder is a TEST done by the harness
         if im.rt == "1" then none
@@ -199,6 +206,10 @@ def step (d : D) (op impl : String) : D × DrvOut :=
     match max.toNat? with
     | some max => ({ codec, max, mode := "aa", valid := true, lifeVideo := codec == "h264" }, { model := "ok" })
     | none => ({}, { model := "bad-op" })
+  | ["final"] =>
+    -- every unit handed to the reader was retained (not copied) by the harness; its packets are re-read now
+    (d, { model := "same", spec := if impl == "same" then "ok"
+      else "FAIL the RTP packets handed to a reader for an earlier unit were modified afterwards (" ++ (impl.take 120).toString ++ ")" })
   | "aafill" :: _ => stepLife d impl
   | ["aapub"] => stepLife d impl
   | ["aaoff"] => stepLife d impl
